@@ -885,7 +885,7 @@ class Oracles:
     # ================================================================== end of run
     async def epilogue(self) -> None:
         w = self.w
-        for _ in range(60):
+        for _ in range(600):
             n = w.release_all()
             await w.settle()
             if not w.waiters and n == 0:
